@@ -78,7 +78,7 @@ def cases(tier, seed, phase):
             def mk(j=j, b=b):
                 rng = rng_for(seed, 'c15', j)
                 ops = gen_ops(rng, rng.randint(4, 40), malformed=(j % 5 == 0))
-                return {'backend': b, 'ops': ops, 'overlap': (j % 4 == 1) and b != 'dict'}
+                return {'backend': b, 'ops': ops, 'overlap': (j % 4 == 1) and b != 'dict', 'orphans': 3 if (b == 'disk' and j % 3 == 0) else 0}
             yield mk
 
 
@@ -201,6 +201,13 @@ def run_case(case, model):
     import gevent
     be = Backend(case['backend'])
     ops = case['ops']
+    if case.get('orphans') and be.tmp:
+        # envelope files without a meta file, as a crash between the two writes of write() leaves them: not messages,
+        # and no reason for load() / get() of the live messages to behave differently
+        import pickle
+        for i in range(case['orphans']):
+            with open(os.path.join(be.tmp, 'env', '%s%030d.env' % ('0f'[i % 2], i)), 'wb') as f:
+                f.write(pickle.dumps(make_env(900 + i, 1), pickle.HIGHEST_PROTOCOL))
     ids, rev = {}, {}
     outs = [None] * len(ops)
     try:
